@@ -581,12 +581,21 @@ func (tree *MutableTree) enableFastStorageAndCommitIfNotEnabled() (bool, error) 
 	// downgrade and subsequent re-upgrade, we cannot know for sure which fast nodes have been removed while downgraded,
 	// Therefore, there might exist stale fast nodes on disk. As a result, to avoid persisting the stale state, it might
 	// be worth to delete the fast nodes from disk.
+	// The keys are collected first: the batch must not be written to while the storage iterator
+	// is open, because an automatic flush of the batch blocks for ever on stores whose iterators
+	// hold a lock (MemDB).
+	var staleFastKeys [][]byte
 	fastItr := NewFastIterator(nil, nil, true, tree.ndb)
-	defer fastItr.Close()
-	var deletedFastNodes uint64
 	for ; fastItr.Valid(); fastItr.Next() {
+		staleFastKeys = append(staleFastKeys, fastItr.Key())
+	}
+	if err := fastItr.Close(); err != nil {
+		return false, err
+	}
+	var deletedFastNodes uint64
+	for _, key := range staleFastKeys {
 		deletedFastNodes++
-		if err := tree.ndb.DeleteFastNode(fastItr.Key()); err != nil {
+		if err := tree.ndb.DeleteFastNode(key); err != nil {
 			return false, err
 		}
 	}
